@@ -4,3 +4,5 @@ pub mod c03;
 pub mod c04;
 pub mod c05;
 pub mod c06;
+pub mod c17;
+pub mod c18;
